@@ -124,6 +124,12 @@ OuterLoop:
 						tmpMem += t.RequireBytes(length + prec + 24)
 						arg = formatHexFloat(f, format[i], flags, length, prec, foundDot)
 						setStringVerb(outFormat[start : i+1])
+					} else if (format[i] == 'g' || format[i] == 'G') && !foundDot {
+						// The default precision is 6 in C but in Go it is the
+						// smallest that represents the value exactly.
+						tmpMem += t.RequireBytes(length + 16)
+						arg = fmt.Sprintf(format[start-1:i]+".6"+format[i:i+1], f)
+						setStringVerb(outFormat[start : i+1])
 					}
 					break ArgLoop
 				case 's':
